@@ -56,6 +56,7 @@ class Registry:
         self.plain_truthy = set()  # opaque classes with default truthiness (no __bool__/__len__)
         self.constructors = {}  # class / external name -> hook(ex, args, kwargs)
         self.path_init = []     # hooks run at the start of every path
+        self.opaque_classes = {}  # class name -> module: classes whose __init__ only stores its parameters (checked per run)
 
     # --- declaration helpers
     def contract(self, fid, **kw):
@@ -100,6 +101,9 @@ class Registry:
 
     def lemma(self, name, types, requires, ensures, prop=None):
         self.lemmas.append((name, dict(types), list(requires), list(ensures), prop))
+
+    def opaque_class(self, name, module):
+        self.opaque_classes[name] = module
 
     def replay(self, fid, fn):
         self.replays[fid] = fn
